@@ -552,14 +552,11 @@ def execute(sc):
             for r in range(W):
                 try:
                     ld = build(r, sc["init_epoch"][r])
-                except ValueError as e:
-                    if should_raise and "divisible" in str(e):
+                except Exception as e:  # noqa
+                    if should_raise:  # the mandated refusal, whatever its type and wording
                         res.bump("probe.raise_on_uneven")
                         res.nontrivial = True
                         return res
-                    res.violate("construct.raised", f"{kind} loader construction raised {type(e).__name__}: {e}", exc=type(e).__name__, kind=kind)
-                    return res
-                except Exception as e:  # noqa
                     res.violate("construct.raised", f"{kind} loader over {n} utterances (buckets={sc['num_length_buckets']}, suppress_uttids={sc['suppress_uttids']}, "
                                 f"tokens_only={sc['tokens_only']}) raised {type(e).__name__}: {e}", exc=type(e).__name__, kind=kind, empty=(n == 0),
                                 suppress_uttids=sc["suppress_uttids"])
